@@ -513,3 +513,51 @@ LOG_ALIGNED = [Contract(module=MO, qualname=f"Optimize.{m}", params={}, min_obli
                              "normal or exceptional (a row is appended completely or not at all)")
                for m in LOG_METHODS]
 VARIANTS += LOG_ALIGNED
+
+
+# ----------------------------------------------------------------------------- get_jacobian: the finite-difference loop (block)   (C16)
+from pyvc.fd_engine import FDEngine, PyMat, TMat, merit, nf_of      # noqa: E402
+TMeritFD = TRec("MeritFunctionForMatch", dict(vary=TVaryList, steps_for_jacobian=TVec, mask_input=TBVec))
+
+
+def _fd_col(s, jj):
+    """column jj of the forward-difference Jacobian, in OPTIMIZER units: both the increment and the divisor are step_jj / weight_jj"""
+    h = s.self.steps_for_jacobian.at(jj) / W(jj)
+    xp = z3.Store(s.x.arr, jj, z3.Select(s.x.arr, jj) + h)
+    return lambda kk: (z3.Select(merit(xp), kk) - s.f0.at(kk)) / h
+
+
+def _fd_inv():
+    kk = z3.Int("kk!fd")
+
+    def g(L):
+        s, c = L.old, L.cur
+        return z3.And(
+            c.x.n == s.x.n, c.x.arr == s.x.arr,                               # the evaluation point is put back after every column
+            c.jac.n == s.x.n,
+            z3.ForAll([j, kk], z3.Implies(z3.And(0 <= j, j < L.k, s.self.mask_input.at(j)),
+                                          z3.Select(c.jac.col(j), kk) == _fd_col(s, j)(kk)),
+                      patterns=[z3.Select(c.jac.col(j), kk)]))
+    return [("columns-so-far-are-forward-differences-in-x-units; x-restored", g),
+            ("index", lambda L: z3.And(0 <= L.k, L.k <= L.n, L.n == L.old.x.n))]
+
+
+FD_BLOCK = Contract(
+    module=MO, qualname="MeritFunctionForMatch.get_jacobian", params=dict(self=TMeritFD, x=TVec, f0=TVec), ghost=dict(jac=TMat),
+    requires=[("one-step-and-flag-per-knob", lambda s: z3.And(s.self.steps_for_jacobian.n == s.self.vary.n, s.x.n == s.self.vary.n,
+                                                             s.self.mask_input.n == s.self.vary.n, s.f0.n == nf_of())),
+              ("weights-positive", lambda s: weights_positive(s.self.vary.n)),
+              ("steps-nonzero", lambda s: z3.ForAll([j], z3.Implies(z3.And(0 <= j, j < s.x.n), s.self.steps_for_jacobian.at(j) != 0)))],
+    ensures=[("every-active-column-is (merit(x + h e_j) - f0) / h  with  h = step_j / weight_j", lambda o, n, r: z3.ForAll(
+        [j, z3.Int("kk!fd")], z3.Implies(z3.And(0 <= j, j < o.x.n, o.self.mask_input.at(j)),
+                                         z3.Select(n.jac.col(j), z3.Int("kk!fd")) == _fd_col(o, j)(z3.Int("kk!fd"))),
+        patterns=[z3.Select(n.jac.col(j), z3.Int("kk!fd"))])),
+        ("evaluation-point-unchanged", lambda o, n, r: z3.And(n.x.n == o.x.n, n.x.arr == o.x.arr))],
+    raises={"UserError": dict(when=None, post=[], modifies=("x", "jac")), "AssertionError": dict(when=None, post=[], modifies=("x", "jac"))},
+    loops={0: LoopSpec(anchor="range(len(x))", invariants=_fd_inv())},
+    modifies=("x", "jac"), min_obligations=4,
+    extra=dict(engine=FDEngine, variant="finite-difference-block", frame_ghosts=False, local_types=dict(jac=TMat),
+               block=dict(first="steps = self._knobs_to_x(self.steps_for_jacobian)", until="self._last_jac = jac")),
+    note="block contract: the forward-difference quotient uses ONE step per knob, in optimizer units (knob step / weight), for the increment "
+         "and for the divisor; the merit function is an uninterpreted deterministic map of the evaluation point")
+VARIANTS += [FD_BLOCK]
